@@ -2,10 +2,11 @@
 """Regenerates MANIFEST.json from the registry below (kept in one place so it always validates)."""
 import json, os
 HERE = os.path.dirname(os.path.dirname(os.path.abspath(__file__)))
-CLAIMED = {
- "C08": ("Theorems (Coq kernel): model of calc_crc24q = GF(2) remainder mod 0x1864CFB for all byte strings; self-check; xor-linearity; odd / burst<=24 / single / two-bit (distance < 2^23-1, order computed in-kernel) damage has non-zero CRC; parse gate rejects it; validate=0 ignores CRC. Model tied to the code by correspondence (vm_compute) and the implementation searched directly.",
-         "6, C08", "Coq proof by induction over the byte string + in-kernel order computation; correspondence by vm_compute"),
-}
+import sys
+sys.path.insert(0, os.path.join(HERE, "tools"))
+import props  # noqa: E402
+TECH = "Coq 8.16 theorems (induction over streams / layouts / event lists) + per-run kernel-decided table theorems on the regenerated Tables.v + model/implementation correspondence evaluated by vm_compute"
+CLAIMED = {k: (v["text"], "6 (%s)" % k, TECH) for k, v in props.SPEC.items()}
 NOT_YET = {}
 def main():
     props = [json.loads(l)["id"] for l in open(os.path.join(HERE, "properties.jsonl"))]
@@ -24,7 +25,7 @@ def main():
                 "level_note": "Trusted: Coq 8.16.1 kernel + vm_compute; no axioms declared (Print Assumptions per theorem in evidence); tools/gen_tables.py; the hand-written Gallina mirror is tied to /repo by the sampled correspondence check (corr/ drivers, coq/Corr); CPython semantics assumed by the mirror. See DESIGN.md section 8.",
                 "technique": tech,
             })
-    na = [{"property_id": p, "reason": NOT_YET.get(p, "check not yet registered in this revision (machinery under construction; see DESIGN.md)")} for p in props if p not in CLAIMED]
+    na = [{"property_id": p, "reason": NOT_YET.get(p, "theorems for this property are still being proved in this revision; the check will be registered when its property file is part of the build (see DESIGN.md section 6)")} for p in props if p not in CLAIMED]
     man = {
         "version": 1,
         "setup_cmd": "bin/setup",
